@@ -55,6 +55,8 @@ pub struct Loader {
     rules: HashMap<String, SmallMap<String, eval::EvalString<String>>>,
     pools: SmallMap<String, usize>,
     builddir: Option<String>,
+    /// Current nesting of include/subninja, to diagnose files that include themselves.
+    include_depth: usize,
 }
 
 impl Loader {
@@ -215,7 +217,15 @@ impl Loader {
                     let mut sub_parser = parse::Parser::new(&bytes);
 
                     sub_parser.inherit(&parser);
+                    if self.include_depth >= 100 {
+                        bail!(
+                            "{}: include/subninja nesting too deep (does a file include itself?)",
+                            path.display()
+                        );
+                    }
+                    self.include_depth += 1;
                     self.parse_with_parser(&mut sub_parser, path, envs)?;
+                    self.include_depth -= 1;
                 }
 
                 Statement::Default(defaults) => {
